@@ -135,6 +135,23 @@ class Trace:
                 return a
         return None
 
+    def unprocessed(self, scn, ev, seq):
+        """(bus, handler) pairs: ev was accepted on bus (dispatch or forwarding) by seq but that harness handler has not exited by seq"""
+        out = []
+        for d in self.dispatches:
+            if d[4] != ev or d[5] != 'ok' or d[0] > seq:
+                continue
+            bus = d[3]
+            st = self.state_at(ev, seq)
+            settled = {(r[0], r[1]) for r in (st[2] if st else ()) if r[2] in ('completed', 'error')}
+            for h in matching_handlers(scn, bus, ev):
+                # a handler the library refused or cancelled without running it (recursion guard, parent time-out) is settled by its terminal result
+                if (bus, h) in settled and not any(x[2] == bus and x[3] == h and x[4] == ev for x in self.enters):
+                    continue
+                if not any(x[2] == bus and x[3] == h and x[4] == ev and x[0] <= seq for x in self.exits) and (bus, h) not in out:
+                    out.append((bus, h))
+        return out
+
     def accepted(self, bus=None):
         """(seq, bus, ev, who, via) for dispatch calls that returned"""
         return [(d[0], d[3], d[4], d[2], d[6]) for d in self.dispatches if d[5] == 'ok' and (bus is None or d[3] == bus)]
